@@ -32,12 +32,18 @@ class Unhashable(Exception):
     __hash__ = None
 
 
+def _syntax_error(msg):
+    """A SyntaxError as compile()/import of generated source raises it: its traceback text
+    carries a location line (File "...", line N) without the usual ", in <name>"."""
+    return SyntaxError(msg, ('<generated>', 3, 7, 'x = (1 +\n', 3, 9))
+
+
 EXC = {
     'ValueError': ValueError, 'KeyError': KeyError, 'AssertionError': AssertionError,
     'CustomError': CustomError, 'BadStr': BadStr, 'NotImplementedError': NotImplementedError,
     'SkipTest': unittest.SkipTest, 'SystemExit': SystemExit,
     'KeyboardInterrupt': KeyboardInterrupt, 'OSError': OSError, 'TypeError': TypeError,
-    'MemoryError': MemoryError, 'Unhashable': Unhashable,
+    'MemoryError': MemoryError, 'Unhashable': Unhashable, 'SyntaxError': _syntax_error,
 }
 
 # event flag bits
@@ -121,9 +127,10 @@ def _act(r, i, e, occ):
         elif st == 'stderr':
             sys.stderr.write(text)
         elif st == 'stdout.buffer':
-            sys.stdout.buffer.write(text.encode('utf-8'))
+            # (optionally followed by bytes that are not valid UTF-8: binary data, Latin-1 text)
+            sys.stdout.buffer.write(text.encode('utf-8') + bytes.fromhex(e.get('hex', '')))
         elif st == 'stderr.buffer':
-            sys.stderr.buffer.write(text.encode('utf-8'))
+            sys.stderr.buffer.write(text.encode('utf-8') + bytes.fromhex(e.get('hex', '')))
         elif st == 'print':
             print(text, end='')
         elif st == 'realstderr.bytes':
@@ -202,15 +209,23 @@ def populate_layers(g):
     for L in rt.world['layers']:
         name = L['name']
         bases = tuple(objs[b] for b in L['bases'])
+        import functools
+        # a hook that fails at the call itself (a C callable, a wrong signature): no frame of
+        # the hook's own ever enters the traceback, nothing of it is observable in the trace
+        c_raise = functools.partial(int, 'not-a-number')
         if L['kind'] == 'class':
             ns = {'__module__': LAYERMOD}
             for h in L['hooks']:
                 ns[h] = _cls_hook(h)
+            for h in L.get('c_raise') or []:
+                ns[h] = staticmethod(c_raise)
             obj = type(name, bases or (object,), ns)
         else:
             obj = InstLayer(name, bases)
             for h in L['hooks']:
                 setattr(obj, h, _inst_hook(h, name))
+            for h in L.get('c_raise') or []:
+                setattr(obj, h, c_raise)
         objs[name] = obj
         g[name] = obj
     hook('module.import', LAYERMOD)
